@@ -160,7 +160,7 @@ func TestC16SpreadMinimizing(t *testing.T) {
 	if ev.Thorough() {
 		N, ownLimit, nPart = 2000, 256, 192
 	}
-	rep.Bound = fmt.Sprintf("zone indexes 0..7, instance indexes 0..%d (indexes <= "+fmt.Sprint(ownLimit)+" and every 256th computed by their own generator, all others read from the largest generator and checked for order, congruence, disjointness and spread), every prefix 0..m, GenerateTokens with requested ∈ {0,1,511,512,513} × taken ∈ {∅, first, all, all but one}, partition rings built by AddPartition 0..%d", N, nPart)
+	rep.Bound = fmt.Sprintf("zone indexes 0..7, instance indexes 0..%d (indexes <= "+fmt.Sprint(ownLimit)+" and every 256th computed by their own generator, all others read from the largest generator and checked for order, congruence, disjointness and spread), every prefix 0..m, GenerateTokens with requested ∈ {0,1,511,512,513} × taken ∈ {∅, first, all, all but one, foreign tokens followed by 300 own ones (unsorted), every other own token in descending order}, partition rings built by AddPartition 0..%d", N, nPart)
 	rep.Rule = "per (zone, index): 512 sorted distinct tokens ≡ zone (mod 8), equal to what the generator of the largest index attributes to that index, disjoint from every other (index, zone); for every prefix of instances the per-instance ownership spread 1-min/max <= 1%; distinct_nontrivial = (zone,index) pairs checked"
 	deadline := ev.Deadline(15 * time.Minute)
 	var mu sync.Mutex
@@ -235,7 +235,14 @@ func TestC16SpreadMinimizing(t *testing.T) {
 		// GenerateTokens(n, taken) filters in order
 		if own && (k%8 == 0 || k == N) && (k <= 64 || k == N) {
 			for _, n := range []int{0, 1, 511, 512, 513} {
-				takens := [][]uint32{nil, {toks[0]}, toks, toks[1:]}
+				// the taken set is a set: its order must not matter (foreign tokens first then own ones, descending, ...)
+				foreign := []uint32{toks[0] + 1, toks[len(toks)/2] + 1, toks[len(toks)-1] + 1, 5}
+				mixed := append(append([]uint32(nil), foreign...), toks[:300]...)
+				desc := make([]uint32, 0, 200)
+				for i := 199; i >= 0; i-- {
+					desc = append(desc, toks[i*2])
+				}
+				takens := [][]uint32{nil, {toks[0]}, toks, toks[1:], mixed, desc}
 				for ti, taken := range takens {
 					got := g.GenerateTokens(n, taken)
 					rep.Eval(1)
